@@ -45,13 +45,13 @@ def _kind_of_ty(ty):
     ty = ty.lstrip("&").strip()
     if ty.startswith("mut "):
         ty = ty[4:]
-    if ty.startswith("std::result::Result<"):
+    if ty.startswith("core::result::Result<"):
         return "result"
-    if ty.startswith("std::ops::ControlFlow<"):
+    if ty.startswith("core::ops::ControlFlow<") or ty.startswith("core::ops::control_flow::ControlFlow<"):
         return "cf"
-    if ty.startswith("std::option::Option<"):
+    if ty.startswith("core::option::Option<"):
         return "option"
-    if ty.startswith("std::task::Poll<"):
+    if ty.startswith("core::task::Poll<") or ty.startswith("core::task::poll::Poll<"):
         return "poll"
     if ty == "bool":
         return "bool"
@@ -294,7 +294,7 @@ def classify_write(body, blk, idx):
 def atomic_ops_on_field(prog, adt, field, bodies=None):
     """calls to atomic methods whose receiver is (a ref to) `adt.field`; yields (body, block, term, method)"""
     out = []
-    rx = re.compile(r"std::sync::atomic::Atomic\w+::(\w+)$")
+    rx = re.compile(r"core::sync::atomic::Atomic\w*::(\w+)$")
     for b in (bodies if bodies is not None else prog.bodies.values()):
         for i, t in b.calls():
             m = rx.search(callee(t))
